@@ -794,7 +794,7 @@ def emit_problems(ctx, psn, trapfn, endfn, sites, guard_sites, codes, kinds, nam
                 line = call.lineno
                 others = writers - {'error'}
                 if writers:
-                    ok = all_paths(lambda t: re.search(r'\bint\s+' + re.escape(why) + r'\s*;', t)) and \
+                    ok = all_paths(lambda t: re.search(r'\bint\s+' + re.escape(why) + r'\s*(?:=\s*0\s*)?;', t)) and \
                         all_paths(lambda t: re.search(re.escape(why) + r'\s*=\s*0\s*;', t))
                     yield ('emit:decl:' + wname, ok, 'body uses {%s}: %s is written for %s -> declared and zeroed' % (','.join(sorted(U)), why, sorted(writers)),
                            'the body of a %s uses the exit kinds {%s}: trap_parallel_exit stores into %s for %s, but end_parallel_control_flow_block (called with %s) '
@@ -882,6 +882,9 @@ def guard_sites(ctx, prn, why):
                 if not (isinstance(c, ast.Call) and isinstance(c.func, ast.Attribute) and c.func.attr in EMIT and c.args):
                     continue
                 text = m.render(c.args[0], State())
+                if text is not None and PH in text:
+                    # a part of the text comes from a local (`why_name = Naming.parallel_why`): resolve single-assignment locals first
+                    text = m.render(_Deref(pC37.local_assigns(fn)).visit(ast.parse(ast.unparse(c.args[0]), mode='eval').body), State())
                 if text is None or not re.search(r'\bif\s*\(\s*' + re.escape(why) + r'\s*(<=|>=|==|!=|<|>)', text):
                     continue
                 if not guarded:
@@ -898,7 +901,7 @@ def rule_emit(ctx):
     ix = ctx.index
     r = Rule('C37-EMIT', 'for every parallel construct x every set of exit kinds used by its body: what trap_parallel_exit writes/saves is declared, zeroed, '
              'error-preferred and dispatched by end_parallel_control_flow_block in the same world; exit-code guards are emitted whenever a breaking exit is trapped',
-             floor=90)
+             floor=85)
     psn = ix.cls('Nodes', 'ParallelStatNode')
     prn = ix.cls('Nodes', 'ParallelRangeNode')
     rel = psn.module.rel
@@ -911,7 +914,8 @@ def rule_emit(ctx):
         raise AnalysisError('only %d call sites of end_parallel_control_flow_block found' % len(sites))
     gs = guard_sites(ctx, prn, naming['parallel_why'])
     if len(gs) < 2:
-        raise AnalysisError('only %d exit-code guard emissions found in ParallelRangeNode' % len(gs))
+        # a missing guard is a finding of C37-WHY (why:body-guard / why:else-guard), not a reason to stop deciding the rest here
+        r.info('only %d exit-code guard emission(s) found in ParallelRangeNode (C37-WHY decides whether body and else clause are guarded)' % len(gs))
     failing = {}
     for key, ok, sample, msg, line in emit_problems(ctx, psn, trapfn, endfn, sites, gs, w['codes'], w['kinds'], naming):
         r.inst(key, sample=key + ': ' + sample)
@@ -1199,4 +1203,926 @@ def rule_trip(ctx):
     r.positive_control(trip_check(bad_seq, pshape, 'literal', -3, 'pc') is not None and trip_check(bad_seq, pshape, 'literal', -1, 'pc') is None and
                        trip_check(ok_seq, pshape, 'literal', -3, 'pc') is None and trip_check(ok_seq, pshape, 'runtime', 5, 'pc') is None,
                        'floor instead of ceiling for a descending stride')
+    return r
+
+
+# ================================================================================================ fourth round: C37-SEQ, C37-FLOW, C37-NODE
+class Mini2(Mini):
+    """Mini that also follows stores to attributes of opaque objects (`node.is_parallel = ...`, setattr) in a per-path overlay kept in
+    State.attrs under the key (id of the object, attribute), and list-like push/pop on a tuple-valued self attribute."""
+
+    @staticmethod
+    def sym_get(st, sym, attr):
+        k = (id(sym), attr)
+        if k in st.attrs:
+            return st.attrs[k]
+        return sym.attrs.get(attr, UNK)
+
+    def ev(self, n, st):
+        if isinstance(n, ast.Attribute) and not is_self_attr(n):
+            if self.oracle is not None:
+                v = self.oracle(n, st, self)
+                if v is not NotImplemented:
+                    return v
+            b = self.ev(n.value, st)
+            if isinstance(b, Sym):
+                return self.sym_get(st, b, n.attr)
+            return UNK
+        return Mini.ev(self, n, st)
+
+    def assign(self, t, v, st):
+        if isinstance(t, ast.Attribute) and not is_self_attr(t):
+            b = self.ev(t.value, st)
+            if isinstance(b, Sym):
+                st.attrs[(id(b), t.attr)] = v
+                st.trace.append(('store', b, t.attr, v))
+            return
+        Mini.assign(self, t, v, st)
+
+    def call(self, n, st):
+        f = n.func
+        if isinstance(f, ast.Name) and f.id in ('getattr', 'setattr') and not n.keywords and len(n.args) in (2, 3):
+            obj, name = self.ev(n.args[0], st), self.ev(n.args[1], st)
+            if isinstance(obj, Sym) and isinstance(name, str):
+                if f.id == 'getattr':
+                    v = self.sym_get(st, obj, name)
+                    return self.ev(n.args[2], st) if (v is UNK and len(n.args) == 3 and name not in obj.attrs and (id(obj), name) not in st.attrs) else v
+                if len(n.args) == 3:
+                    v = self.ev(n.args[2], st)
+                    st.attrs[(id(obj), name)] = v
+                    st.trace.append(('store', obj, name, v))
+                    return None
+            return UNK
+        if isinstance(f, ast.Attribute) and f.attr in ('append', 'pop') and is_self_attr(f.value) and isinstance(st.attrs.get(f.value.attr), tuple):
+            cur = st.attrs[f.value.attr]
+            if f.attr == 'append' and len(n.args) == 1:
+                st.attrs[f.value.attr] = cur + (self.ev(n.args[0], st),)
+                return None
+            if f.attr == 'pop' and not n.args:
+                if not cur:
+                    raise AnalysisError('%s: pop from an empty %s' % (self.what, f.value.attr))
+                st.attrs[f.value.attr] = cur[:-1]
+                return cur[-1]
+        return Mini.call(self, n, st)
+
+
+def _normal_paths(paths, what):
+    out = [p for p in paths if p[1] != 'raise']
+    if not out:
+        raise AnalysisError('%s has no normal path in the analysed world' % what)
+    return out
+
+
+# ------------------------------------------------------------------------------------------------ C37-SEQ
+def trap_trace(ctx, psn, trapfn, kinds, should_flush, U):
+    """The event trace of trap_parallel_exit in the world (should_flush, U): one list, the method is deterministic in a world."""
+    fresh = [0]
+    m = Mini(_label_oracle(ctx, U, kinds, fresh, psn), _recorder, what='trap_parallel_exit', inliner=helper_inliner(ctx, psn, EMIT_NEEDLES + ('put_label', 'put_goto')))
+    paths = _normal_paths(m.run(trapfn, State(), {'should_flush': should_flush}), 'trap_parallel_exit')
+    traces = []
+    for st, _, _ in paths:
+        t = [(e[0], e[1] if e[0] != 'emit' else e[2]) for e in st.trace if e[0] in ('emit', 'put_label', 'put_goto', 'self', 'opaque')]
+        if t not in traces:
+            traces.append(t)
+    if len(traces) != 1:
+        raise AnalysisError('trap_parallel_exit is not deterministic in the world U=%s (%d traces)' % (sorted(U), len(traces)))
+    if any(e[0] == 'opaque' for e in traces[0]):
+        raise AnalysisError('trap_parallel_exit: helper self.%s() could not be interpreted in place' % [e[1] for e in traces[0] if e[0] == 'opaque'][0])
+    return traces[0]
+
+
+def seq_problems(trace, U, should_flush, why, codes):
+    """-> [(key, ok, message)] for the emitted skeleton  goto D; (L_k: [why = code_k;] goto D;)*  D:  of one world."""
+    out = []
+    ctl = [(i, e) for i, e in enumerate(trace) if e[0] in ('put_label', 'put_goto')]
+    used = [k for k in KINDS if k in U]
+    if not used:
+        return out
+    tmp = [e[1] for _, e in ctl if isinstance(e[1], Label) and e[1].kind.startswith('tmp')]
+    join = tmp[-1] if tmp else None
+    first = ctl[0][1] if ctl else None
+    out.append(('seq:skip', first is not None and first[0] == 'put_goto' and first[1] == join and join is not None,
+                'the code after the loop body / block body falls into the first trapped label: trap_parallel_exit does not start with a jump over the label blocks, so a '
+                'body that completes normally stores the exit code of %s (every prange with a %s stops after one iteration per thread)' % (used[0], used[0])))
+    out.append(('seq:join', bool(ctl) and ctl[-1][1][0] == 'put_label' and ctl[-1][1][1] == join,
+                'the label blocks of trap_parallel_exit do not end at a common join label placed after the last block'))
+    for pos, (i, e) in enumerate(ctl):
+        if e[0] != 'put_label' or not isinstance(e[1], Label) or e[1].kind not in KINDS:
+            continue
+        k = e[1].kind
+        nxt = ctl[pos + 1][1] if pos + 1 < len(ctl) else None
+        later = [x[1].kind for _, x in ctl[pos + 1:] if x[0] == 'put_label' and isinstance(x[1], Label) and x[1].kind in KINDS]
+        # leaving the block by `goto J` or by running straight into `J:` (last block) are the same program
+        out.append(('seq:no-fallthrough:' + k, nxt is not None and nxt[0] in ('put_goto', 'put_label') and nxt[1] == join,
+                    'the block that traps a %s is not closed by a jump to the join label: it falls through into the block of %s, so a %s is reported with the exit code of %s'
+                    % (k, later[0] if later else 'the code after it', k, later[-1] if later else 'nothing')))
+        end = ctl[pos + 1][0] if pos + 1 < len(ctl) else len(trace)
+        block = trace[i + 1:end]
+        stores = [int(m.group(1)) for x in block if x[0] == 'emit' and x[1] for m in re.finditer(re.escape(why) + r'\s*=(?!=)\s*(-?\d+)\s*;', x[1])]
+        if should_flush and k == 'continue':
+            continue        # prange: a continue is a direct jump to the end of the iteration, nothing to report
+        out.append(('seq:store:' + k, stores == [codes[k]],
+                    'a %s that leaves the parallel block is trapped but its block stores %s into %s instead of %d: end_parallel_control_flow_block cannot dispatch it to the '
+                    'enclosing %s target, the statement is silently dropped' % (k, stores or 'nothing', why, codes[k], k)))
+    return out
+
+
+def _writer_kind(ctx, psn, fn, writer_src, env):
+    """'before' when the writer expression of an emission resolves to an insertion point captured by setup_parallel_control_flow_block,
+    'after' when it is the code writer parameter of fn, None when it cannot be resolved."""
+    try:
+        e = ast.parse(writer_src, mode='eval').body
+    except SyntaxError:
+        return None
+    e = pC37.deref(e, env)
+    params = [a.arg for a in fn.args.args[1:]]
+    if isinstance(e, ast.Name) and e.id in params:
+        return 'after'
+    if is_self_attr(e):
+        _, setup = pC37.method(ctx.index, psn, 'setup_parallel_control_flow_block')
+        for n in walk_no_nested(setup):
+            if isinstance(n, ast.Assign) and any(is_self_attr(t) and t.attr == e.attr for t in n.targets) and isinstance(n.value, ast.Call) and \
+                    isinstance(n.value.func, ast.Attribute) and n.value.func.attr == 'insertion_point':
+                return 'before'
+    return None
+
+
+def place_problems(ctx, psn, endfn, sites, codes, kinds, naming, trapfn):
+    """Placement of what end_parallel_control_flow_block emits relative to the parallel region, per site and world."""
+    why, exc_type = naming['parallel_why'], naming['parallel_exc_type']
+    params = [a.arg for a in endfn.args.args[1:]] + [a.arg for a in endfn.args.kwonlyargs]
+    env_end = pC37.local_assigns(endfn)
+    for cls, fn, call, should_flush in sites:
+        env = pC37.local_assigns(fn)
+        for U in (frozenset(('break', 'error')), frozenset(('return',)), frozenset(KINDS)):
+            flags, writers, fetch = trap_world(ctx, psn, trapfn, kinds, should_flush, U, why)
+            wname = '%s:U={%s}' % (cls.name, ','.join(k for k in KINDS if k in U))
+            fresh = [0]
+            m = Mini(_label_oracle(ctx, U, kinds, fresh), _recorder, what='%s.%s' % (cls.name, fn.name))
+            st = State(attrs=dict(flags))
+            bound = {}
+            for i, a in enumerate(call.args):
+                if 0 < i < len(params):
+                    bound[params[i]] = m.ev(pC37.deref(a, env), st)
+            for k in call.keywords:
+                bound[k.arg] = m.ev(pC37.deref(k.value, env), st)
+            m2 = Mini(_label_oracle(ctx, U, kinds, fresh, cls), _recorder, what='end_parallel_control_flow_block', inliner=helper_inliner(ctx, cls, EMIT_NEEDLES))
+            paths = _normal_paths(m2.run(endfn, State(attrs=dict(flags)), bound), 'end_parallel_control_flow_block')
+            zero_ok = fix_ok = cond_ok = True
+            zero_seen = fix_seen = cond_seen = False
+            cond_text = None
+            for stt, _, _ in paths:
+                ems = [e for e in stt.trace if e[0] == 'emit' and e[2] is not None]
+                for j, e in enumerate(ems):
+                    wk = _writer_kind(ctx, psn, endfn, e[1], env_end)
+                    if re.search(re.escape(why) + r'\s*=\s*0\s*;', e[2]) or re.search(r'\bint\s+' + re.escape(why) + r'\s*(?:=\s*0\s*)?;', e[2]):
+                        zero_seen = True
+                        if wk != 'before':
+                            zero_ok = False
+                    if re.search(re.escape(why) + r'\s*=\s*%d\s*;' % codes['error'], e[2]):
+                        fix_seen = True
+                        if wk != 'after':
+                            fix_ok = False
+                        prev = [x for x in ems[:j] if re.search(r'\bif\s*\(', x[2])]
+                        if not prev or _writer_kind(ctx, psn, endfn, prev[-1][1], env_end) != 'after':
+                            fix_ok = False
+                    if re.search(r'\bswitch\s*\(\s*' + re.escape(why) + r'\s*\)', e[2]):
+                        cond_seen = True
+                        conds = [x for x in ems[:j] if re.match(r'\s*if\s*\((.*)\)\s*\{\s*$', x[2], re.S) and re.search(r'\b' + re.escape(why) + r'\b', x[2])]
+                        if wk != 'after' or not conds or _writer_kind(ctx, psn, endfn, conds[-1][1], env_end) != 'after':
+                            cond_ok = False
+                        else:
+                            cond_text = re.match(r'\s*if\s*\((.*)\)\s*\{\s*$', conds[-1][2], re.S).group(1)
+                            try:
+                                ce = cexpr.parse(cond_text.replace(why, 'why'))
+                                vals = {k: cexpr.evaluate(ce, {'why': codes[k]}) for k in writers}
+                            except Exception as ex:
+                                raise AnalysisError('end_parallel_control_flow_block: cannot evaluate the dispatch condition `%s`: %s' % (cond_text, ex))
+                            if not all(vals.values()):
+                                cond_ok = False
+            if writers and zero_seen:
+                yield ('place:init:' + wname, zero_ok, '`int %s; %s = 0;` written in front of the parallel region' % (why, why),
+                       'end_parallel_control_flow_block declares / zeroes %s through the code writer that stands AFTER the parallel region instead of the insertion point '
+                       'captured by setup_parallel_control_flow_block in front of it: the exit code stored by the threads is wiped (or not yet declared) when the switch reads it - '
+                       'break, return and exceptions are swallowed and a saved exception object leaks' % why, call.lineno)
+            if fetch and (writers - {'error'}) and fix_seen:
+                yield ('place:prefer-error:' + wname, fix_ok, '`if (%s) %s = %d;` written after the parallel region' % (exc_type, why, codes['error']),
+                       'end_parallel_control_flow_block writes the `if (%s) %s = %d;` fix-up through the insertion point in FRONT of the parallel region: it runs before any thread '
+                       'can have saved an exception, so an error code overwritten by another thread\'s break/return is not restored and the exception is lost'
+                       % (exc_type, why, codes['error']), call.lineno)
+            if writers and cond_seen:
+                yield ('place:dispatch:' + wname, cond_ok, 'switch reached for the exit codes %s (condition `%s`)' % (sorted(codes[k] for k in writers), cond_text),
+                       'end_parallel_control_flow_block emits the `switch (%s)` dispatch under the C condition `%s`, which is false for the exit code of %s '
+                       '(or emits it in front of the parallel region): the trapped exit is never dispatched, break/return are ignored and a saved exception is swallowed and leaks'
+                       % (why, cond_text, '/'.join(sorted(k for k in writers))), call.lineno)
+
+
+def guard_placement(ctx, gs):
+    """For every `if (why < N)` guard emission: (class, fn, call, ok, how) - the guard text must land in front of the code it guards."""
+    out = []
+    for cls, fn, c, extra in gs:
+        guarded = [x for x in walk_no_nested(fn) if isinstance(x, ast.Call) and isinstance(x.func, ast.Attribute) and x.func.attr == 'generate_execution_code'
+                   and is_self_attr(x.func.value) and x.func.value.attr in ('body', 'else_clause')]
+        tgt = [g for g in guarded if g.func.value.attr == 'else_clause'] or guarded
+        tgt = tgt[0]
+        env = pC37.local_assigns(fn)
+        w = c.func.value
+        params = [a.arg for a in fn.args.args[1:]]
+        anchor = None
+        if isinstance(w, ast.Name) and w.id in params:
+            anchor, how = c, 'written through the code writer'
+        elif isinstance(w, ast.Name) and len(env.get(w.id, ())) == 1 and isinstance(env[w.id][0], ast.Call) and isinstance(env[w.id][0].func, ast.Attribute) \
+                and env[w.id][0].func.attr == 'insertion_point':
+            anchor, how = env[w.id][0], 'written through an insertion point'
+        if anchor is None:
+            raise AnalysisError('%s.%s: cannot resolve the writer `%s` of the exit-code guard' % (cls.name, fn.name, ast.unparse(w)))
+
+        def order_key(node):
+            for i, s in enumerate(fn.body):
+                if any(x is node for x in ast.walk(s)):
+                    return (i, node.lineno, node.col_offset)
+            raise AnalysisError('%s.%s: statement of %s not found' % (cls.name, fn.name, node_src(node, 40)))
+        out.append((cls, fn, c, order_key(anchor) < order_key(tgt), how, tgt.func.value.attr))
+    return out
+
+
+def rule_seq(ctx):
+    ix = ctx.index
+    r = Rule('C37-SEQ', 'the C skeleton emitted by trap_parallel_exit (jump over the label blocks, one closed block per trapped label storing its own exit code, common join '
+             'label) for every construct x set of exit kinds, and the placement of the exit-code declaration/zeroing (in front of the parallel region), of the prefer-error '
+             'fix-up and the dispatch switch (after it, reached for every stored code) and of the `if (why < N)` guards (in front of the guarded code)', floor=110)
+    psn = ix.cls('Nodes', 'ParallelStatNode')
+    prn = ix.cls('Nodes', 'ParallelRangeNode')
+    rel = psn.module.rel
+    naming = pC37.naming_values(ctx)
+    why = naming['parallel_why']
+    w = pC37.writer_codes(ctx, psn)
+    codes, kinds = w['codes'], w['kinds']
+    _, trapfn = pC37.method(ix, psn, 'trap_parallel_exit')
+    _, endfn = pC37.method(ix, psn, 'end_parallel_control_flow_block')
+    sites = _sites(ctx, psn)
+    failing = {}
+    for should_flush in sorted({s[3] for s in sites}):
+        cname = '/'.join(sorted({s[0].name for s in sites if s[3] == should_flush}))
+        for n_ in range(1, len(KINDS) + 1):
+            for U in itertools.combinations(KINDS, n_):
+                trace = trap_trace(ctx, psn, trapfn, kinds, should_flush, frozenset(U))
+                for key, ok, msg in seq_problems(trace, frozenset(U), should_flush, why, codes):
+                    full = '%s:%s:U={%s}' % (key, cname, ','.join(U))
+                    r.inst(full, sample=full)
+                    if not ok:
+                        failing.setdefault('%s:%s' % (key, cname), []).append((','.join(U), msg, trapfn.lineno))
+    for key, ok, sample, msg, line in place_problems(ctx, psn, endfn, sites, codes, kinds, naming, trapfn):
+        r.inst(key, sample=key + ': ' + sample)
+        if not ok:
+            failing.setdefault(key.rsplit(':U=', 1)[0], []).append((key.rsplit(':U=', 1)[1].strip('{}'), msg, line))
+    for vkey, lst in sorted(failing.items()):
+        lst.sort(key=lambda x: (x[0].count(','), x[0]))
+        r.violate(vkey, rel, lst[0][2], lst[0][1] + ' (%d world(s) fail, first: U={%s})' % (len(lst), lst[0][0]))
+    gs = guard_sites(ctx, prn, why)
+    for cls, fn, c, ok, how, what in guard_placement(ctx, gs):
+        key = 'place:guard:%s.%s' % (cls.name, fn.name)
+        r.inst(key, sample='%s: guard of the %s %s' % (key, what, how))
+        if not ok:
+            r.violate(key, cls.module.rel, c.lineno,
+                      '%s.%s emits its `if (%s < N)` guard (%s) AFTER the code of the %s it is meant to guard has been generated: the guard applies to nothing, iterations '
+                      'scheduled after a break/return/raise (or the else clause) still run' % (cls.name, fn.name, why, how, 'loop body' if what == 'body' else 'else clause'))
+    # positive control: a trap without the closing goto of each block, and a zeroing written after the region
+    pc = ast.parse(
+        "class P:\n"
+        "  def trap_parallel_exit(self, code, should_flush=False):\n"
+        "    dont = code.new_label()\n    labels = code.get_all_labels()\n    used = False\n"
+        "    for label in labels:\n      if code.label_used(label):\n        used = True\n"
+        "    if used:\n      code.put_goto(dont)\n"
+        "    for i, label in enumerate(labels):\n"
+        "      if not code.label_used(label):\n        continue\n"
+        "      code.put_label(label)\n"
+        "      code.putln('%s = %d;' % (Naming.parallel_why, i + 1))\n"
+        "    if used:\n      code.put_label(dont)\n").body[0]
+    fns = {f.name: f for f in pc.body}
+    t = trap_trace(ctx, psn, fns['trap_parallel_exit'], KINDS, False, frozenset(('break', 'return')))
+    bad = [k for k, ok, _ in seq_problems(t, frozenset(('break', 'return')), False, why, {'continue': 1, 'break': 2, 'return': 3, 'error': 4}) if not ok]
+    r.positive_control(bad == ['seq:no-fallthrough:break', 'seq:no-fallthrough:return'][:len(bad)] and 'seq:no-fallthrough:break' in bad, 'label block without closing goto')
+    return r
+
+
+# ------------------------------------------------------------------------------------------------ C37-NODE
+def _class_none_attrs(ctx, cls, names):
+    """{name: None} for the attributes that the class family binds to the constant None at class level (else absent)."""
+    out = {}
+    for nm in names:
+        a = ctx.index.find_class_attr(cls, nm)
+        if a is not None and isinstance(a[1], ast.Constant) and a[1].value is None:
+            out[nm] = None
+    return out
+
+
+def documented_range_signature(ctx):
+    """(names of the positional range arguments of prange by arity) from the `.. function:: prange([start,] stop[, step]...` line of the user guide,
+    or None when the documentation is not available / not in that shape."""
+    try:
+        txt = ctx.read('docs/src/userguide/parallelism.rst')
+    except Exception:
+        return None
+    m = re.search(r'^\.\.\s+function::\s+prange\(\s*\[\s*(\w+)\s*,\s*\]\s*(\w+)\s*\[\s*,\s*(\w+)\s*\]', txt, re.M)
+    if not m:
+        return None
+    a, b, c = m.groups()
+    return {1: (b,), 2: (a, b), 3: (a, b, c)}
+
+
+def range_args_table(ctx, prn, fn):
+    """arity -> set of (start, stop, step) bindings (names of the positional arguments or None) over the normal paths of analyse_declarations."""
+    out = {}
+    for nargs in (1, 2, 3):
+        args = tuple(Sym('A%d' % i) for i in range(nargs))
+        attrs = {'args': args}
+        attrs.update(_class_none_attrs(ctx, prn, ('start', 'stop', 'step')))
+        m = Mini2(_label_oracle(ctx, frozenset(), KINDS, [0], prn), None, what='ParallelRangeNode.analyse_declarations')
+        res = set()
+        for st, flow, _ in _normal_paths(m.run(fn, State(attrs=attrs)), 'ParallelRangeNode.analyse_declarations'):
+            if st.attrs.get('args') is not args:
+                raise AnalysisError('ParallelRangeNode.analyse_declarations rebinds self.args')
+            row = []
+            for nm in ('start', 'stop', 'step'):
+                v = st.attrs.get(nm, UNK)
+                row.append(None if v is None else v.name if isinstance(v, Sym) else '?')
+            res.add(tuple(row))
+        out[nargs] = res
+    return out
+
+
+def is_parallel_table(ctx, mpa, fn):
+    """Decision table of MarkParallelAssignments.visit_ParallelStatNode: (node kind, parent kind) -> facts per path."""
+    rows = {}
+    parents = {
+        'none': (),
+        'with-block': (dict(is_prange=False, is_parallel=True),),
+        'prange': (dict(is_prange=True, is_parallel=True),),
+        'prange-in-with': (dict(is_prange=False, is_parallel=True), dict(is_prange=True, is_parallel=False)),
+    }
+    for kind in ('prange', 'with-block'):
+        for pname, chain in parents.items():
+            stack = []
+            for i, a in enumerate(chain):
+                a = dict(a)
+                a['parent'] = stack[-1] if stack else None
+                stack.append(Sym('P%d' % i, a))
+            node = Sym('node', dict(is_prange=(kind == 'prange'), else_clause=Sym('else') if kind == 'prange' else None, pos=Sym('pos')))
+            visits = []
+
+            def on_call(n, st, mini, args, kwargs, visits=visits, node=node):
+                f = n.func
+                if is_self_attr(f) and f.attr in ('visitchildren', 'visit', 'visitchild'):
+                    stack_now = st.attrs.get('parallel_block_stack')
+                    visits.append((f.attr, args[0] if args else None, kwargs.get('attrs', args[1] if len(args) > 1 else None),
+                                   tuple(stack_now) if isinstance(stack_now, tuple) else None, id(st)))
+                    st.trace.append(('visit', f.attr, args[0] if args else None, kwargs.get('attrs', args[1] if len(args) > 1 else None),
+                                     tuple(stack_now) if isinstance(stack_now, tuple) else None))
+                    return UNK
+                return NotImplemented
+            m = Mini2(None, on_call, what='MarkParallelAssignments.visit_ParallelStatNode')
+            attrs = {'parallel_block_stack': tuple(stack), 'parallel_errors': False}
+            facts = []
+            for st, flow, val in _normal_paths(m.run(fn, State(attrs=attrs), {fn.args.args[1].arg: node}), 'visit_ParallelStatNode'):
+                vis = [e for e in st.trace if e[0] == 'visit']
+                facts.append(dict(is_parallel=Mini2.sym_get(st, node, 'is_parallel'), parent=Mini2.sym_get(st, node, 'parent'),
+                                  want_parent=stack[-1] if stack else None, depth_after=len(st.attrs.get('parallel_block_stack', ())), depth_before=len(stack),
+                                  visits=vis, node=node))
+            rows[(kind, pname)] = facts
+    return rows
+
+
+def transfer_table(ctx, prt, fn, shared):
+    """ParallelRangeTransform.visit_ForInStatNode in the world `the iterator is a prange call`: attribute -> value carried by the node that is returned."""
+    vals = {a: Sym('for.' + a) for a in shared}
+    prange = Sym('prange-node', {})
+    it = Sym('iterator', {'sequence': prange})
+    attrs = dict(vals)
+    attrs['iterator'] = it
+    node = Sym('for-node', attrs)
+
+    def oracle(n, st, mini):
+        if isinstance(n, ast.Call) and isinstance(n.func, ast.Name) and n.func.id == 'isinstance' and len(n.args) == 2:
+            v = mini.ev(n.args[0], st)
+            cls = ast.unparse(n.args[1])
+            if isinstance(v, Sym):
+                if cls.endswith('ParallelRangeNode'):
+                    return v is prange
+                if cls.endswith('NameNode'):
+                    return True
+            return UNK
+        return NotImplemented
+    m = Mini2(oracle, lambda n, st, mini, a, k: NotImplemented, what='ParallelRangeTransform.visit_ForInStatNode')
+    out = []
+    for st, flow, val in _normal_paths(m.run(fn, State(attrs={'state': None}), {fn.args.args[1].arg: node}), 'visit_ForInStatNode'):
+        if flow != 'return':
+            raise AnalysisError('ParallelRangeTransform.visit_ForInStatNode: a path ends without returning a node')
+        row = {}
+        for a in shared:
+            got = Mini2.sym_get(st, val, a) if isinstance(val, Sym) else UNK
+            row[a] = got
+        out.append((val, row, vals))
+    return out, prange
+
+
+def threadstate_table(ctx, psn, fn):
+    """end_parallel_block: (error_label_used, acquire_gil) -> per path the set of GIL bracket calls made."""
+    rows = {}
+    for err in (False, True):
+        for gil in (False, True):
+            m = Mini2(_label_oracle(ctx, frozenset(), KINDS, [0]), _recorder, what='end_parallel_block')
+            attrs = {'error_label_used': err, 'acquire_gil': gil, 'is_parallel': True, 'is_nested_prange': False, 'temps': ()}
+            res = []
+            for st, _, _ in _normal_paths(m.run(fn, State(attrs=attrs)), 'end_parallel_block'):
+                res.append({e[1] for e in st.trace if e[0] == 'call'})
+            rows[(err, gil)] = res
+    return rows
+
+
+def return_table(ctx):
+    """(visit_ReturnStatNode: stack empty/non-empty -> in_parallel) and (ReturnStatNode.generate_execution_code: in_parallel x refcounted -> is the
+    store into the return value emitted inside an `omp critical` section)."""
+    ix = ctx.index
+    naming = pC37.naming_values(ctx)
+    mpa = ix.cls('TypeInference', 'MarkParallelAssignments')
+    _, vfn = pC37.method(ix, mpa, 'visit_ReturnStatNode')
+    marks = {}
+    for depth in (0, 1):
+        node = Sym('ret', {})
+        m = Mini2(None, None, what='visit_ReturnStatNode')
+        vals = set()
+        for st, _, _ in _normal_paths(m.run(vfn, State(attrs={'parallel_block_stack': tuple(Sym('S%d' % i) for i in range(depth))}), {vfn.args.args[1].arg: node}),
+                                      'visit_ReturnStatNode'):
+            v = Mini2.sym_get(st, node, 'in_parallel')
+            vals.add(v if isinstance(v, bool) else '?')
+        marks[depth] = vals
+    rsn = ix.cls('Nodes', 'ReturnStatNode')
+    _, gfn = pC37.method(ix, rsn, 'generate_execution_code')
+    retval = naming.get('retval_cname')
+    if not retval:
+        raise AnalysisError('Naming.retval_cname not found')
+    crit = {}
+    for in_par in (False, True):
+        for refc in (False, True):
+            for has_value in (False, True):
+                rtype = Sym('rtype', dict(needs_refcounting=refc, is_memoryviewslice=False, is_pyobject=refc, is_returncode=False, is_void=False))
+                value = Sym('value', dict(is_none=False)) if has_value else None
+                gil = Sym('funcstate', dict(gil_owned=refc))
+                code = Sym('code', dict(funcstate=gil))
+                m = Mini2(_label_oracle(ctx, frozenset(), KINDS, [0]), _recorder, what='ReturnStatNode.generate_execution_code')
+                attrs = {'in_parallel': in_par, 'return_type': rtype, 'value': value, 'in_generator': False, 'in_async_gen': False}
+                oks = []
+                for st, _, _ in _normal_paths(m.run(gfn, State(attrs=attrs), {gfn.args.args[1].arg: code}), 'ReturnStatNode.generate_execution_code'):
+                    open_crit, stored_inside, stored = False, None, False
+                    depth = None
+                    braces = 0
+                    for e in st.trace:
+                        if e[0] == 'emit' and e[2] is not None:
+                            if re.search(r'#pragma\s+omp\s+critical', e[2]):
+                                open_crit, depth = True, None
+                            elif open_crit and depth is None and '{' in e[2]:
+                                depth = braces
+                            if re.search(r'\b' + re.escape(retval) + r'\s*=(?!=)', e[2]):
+                                stored = True
+                                inside = open_crit and depth is not None and braces > depth
+                                stored_inside = inside if stored_inside is None else (stored_inside and inside)
+                            braces += e[2].count('{') - e[2].count('}')
+                            if open_crit and depth is not None and braces <= depth:
+                                open_crit = False
+                        elif e[0] == 'call' and e[1] == 'put_init_to_py_none':
+                            stored = True
+                            inside = open_crit and depth is not None and braces > depth
+                            stored_inside = inside if stored_inside is None else (stored_inside and inside)
+                    oks.append((stored, stored_inside))
+                crit[(in_par, refc, has_value)] = oks
+    return marks, crit, vfn, gfn
+
+
+def rule_node(ctx):
+    ix = ctx.index
+    r = Rule('C37-NODE', 'decision tables of the prange set-up: positional arguments -> start/stop/step as range() does; a prange inside `with parallel()` joins the enclosing '
+             'team (is_parallel False) and its body is visited while it is on the block stack; the node that replaces the for-loop receives target, body and else clause; '
+             'worker threads keep a thread state for the whole region whenever an exception can be saved; a return inside a region stores the return value inside '
+             'an omp critical section', floor=24)
+    prn = ix.cls('Nodes', 'ParallelRangeNode')
+    psn = ix.cls('Nodes', 'ParallelStatNode')
+    rel = prn.module.rel
+    # ---- (a) range arguments
+    _, adfn = pC37.method(ix, prn, 'analyse_declarations')
+    doc = documented_range_signature(ctx)
+    if doc is None:
+        r.info('docs/src/userguide/parallelism.rst does not give `prange([start,] stop[, step]...)`; the range() convention of Python is used as reference')
+        doc = {1: ('stop',), 2: ('start', 'stop'), 3: ('start', 'stop', 'step')}
+    tab = range_args_table(ctx, prn, adfn)
+    for nargs in (1, 2, 3):
+        want = tuple(('A%d' % doc[nargs].index(nm)) if nm in doc[nargs] else None for nm in ('start', 'stop', 'step'))
+        key = 'node:range-args:%d' % nargs
+        r.inst(key, sample='prange with %d positional argument(s): (start, stop, step) = %s' % (nargs, sorted(tab[nargs], key=repr)))
+        for got in sorted(tab[nargs], key=repr):
+            if got != want:
+                r.violate(key, rel, adfn.lineno,
+                          'ParallelRangeNode.analyse_declarations binds the %d positional argument(s) of prange as (start, stop, step) = %s; prange(%s) is documented (and emulated by '
+                          'Shadow.py) like range(): %s - the compiled loop runs over a different index set than the sequential loop' % (
+                              nargs, got, ', '.join(doc[nargs]), want))
+    # ---- (b) is_parallel / visits
+    mpa = ix.cls('TypeInference', 'MarkParallelAssignments')
+    _, vfn = pC37.method(ix, mpa, 'visit_ParallelStatNode')
+    trel = mpa.module.rel
+    for (kind, pname), facts in sorted(is_parallel_table(ctx, mpa, vfn).items()):
+        key = 'node:is-parallel:%s:in:%s' % (kind, pname)
+        r.inst(key, sample='%s inside %s: is_parallel %s' % (kind, pname, sorted({repr(f['is_parallel']) for f in facts})))
+        for f in facts:
+            ip = f['is_parallel']
+            if kind == 'with-block':
+                want = True
+            elif pname == 'none':
+                want = True
+            elif pname == 'with-block':
+                want = False
+            else:
+                want = None       # nested prange: the inner pragma is compiled out, either value gives the same program
+            if want is not None and ip is not want:
+                r.violate(key, trel, vfn.lineno,
+                          'MarkParallelAssignments.visit_ParallelStatNode gives a %s whose parent is %s is_parallel=%r (must be %r): %s' % (
+                              kind, pname, ip, want,
+                              'generate_loop then opens a second `#pragma omp parallel` inside the enclosing team - every outer thread runs the whole loop and reductions are '
+                              'applied once per outer thread' if want is False else
+                              'the construct does not open its own parallel region and its temporaries / exit variables are not privatised'))
+                break
+            if f['parent'] is not f['want_parent']:
+                r.violate(key + ':parent', trel, vfn.lineno, 'visit_ParallelStatNode sets node.parent to %r instead of the innermost enclosing parallel node %r' % (f['parent'], f['want_parent']))
+                break
+        if kind == 'prange':
+            key = 'node:body-visited:in:%s' % pname
+            r.inst(key, sample='prange inside %s: children visited while on the stack: %s' % (
+                pname, sorted({repr(v[3]) for f in facts for v in f['visits'] if v[4] and v[4][-1] is f['node']})))
+            for f in facts:
+                covered = set()
+                for v in f['visits']:
+                    if v[1] == 'visitchildren' and v[2] is f['node'] and v[4] and v[4][-1] is f['node']:
+                        if v[3] is None or v[3] is UNK:
+                            covered |= {'body', 'target'} if v[3] is None else set()
+                        elif isinstance(v[3], tuple):
+                            covered |= {x for x in v[3] if isinstance(x, str)}
+                if 'body' not in covered:
+                    r.violate(key, trel, vfn.lineno,
+                              'MarkParallelAssignments.visit_ParallelStatNode does not visit the body of a prange while the node is on parallel_block_stack (attributes visited: %s): '
+                              'assignments in the loop body are not recorded, nothing is privatised and no reduction is recognised' % sorted(covered))
+                    break
+    # ---- (c) transfer of the for-loop parts
+    prt = ix.cls('ParseTreeTransforms', 'ParallelRangeTransform')
+    _, tfn = pC37.method(ix, prt, 'visit_ForInStatNode')
+    forin = ix.cls('Nodes', 'ForInStatNode')
+    ca_for, ca_prn = ix.class_list_attr(forin, 'child_attrs'), ix.class_list_attr(prn, 'child_attrs')
+    if not ca_for or not ca_prn or ca_for[1] is None or ca_prn[1] is None:
+        raise AnalysisError('child_attrs of ForInStatNode / ParallelRangeNode are not literal lists')
+    shared = [a for a in ca_for[1] if a in ca_prn[1]]
+    if len(shared) < 2:
+        raise AnalysisError('ForInStatNode and ParallelRangeNode share only the child attributes %s' % shared)
+    rows, prange = transfer_table(ctx, prt, tfn, shared)
+    for a in shared:
+        key = 'node:transfer:' + a
+        r.inst(key, sample='for-loop child `%s` carried over to the ParallelRangeNode' % a)
+        for val, row, vals in rows:
+            if val is not prange:
+                raise AnalysisError('ParallelRangeTransform.visit_ForInStatNode does not return the ParallelRangeNode for a prange loop')
+            if row[a] is not vals[a]:
+                r.violate(key, prt.module.rel, tfn.lineno,
+                          'ParallelRangeTransform.visit_ForInStatNode replaces the for-loop by the ParallelRangeNode without copying its `%s` (found %r): %s' % (
+                              a, row[a], 'the else clause of a prange loop is never executed' if a == 'else_clause' else 'the loop loses its %s' % a))
+                break
+    # ---- (d) thread state bracket
+    _, efn = pC37.method(ix, psn, 'end_parallel_block')
+    for (err, gil), res in sorted(threadstate_table(ctx, psn, efn).items()):
+        key = 'node:threadstate:error=%s:gil=%s' % (err, gil)
+        r.inst(key, sample='end_parallel_block(error_label_used=%s, acquire_gil=%s): %s' % (err, gil, [sorted(x & {'put_ensure_gil', 'put_release_ensured_gil'}) for x in res]))
+        if err or gil:
+            for calls in res:
+                if not {'put_ensure_gil', 'put_release_ensured_gil'} <= calls:
+                    r.violate(key, rel, efn.lineno,
+                              'ParallelStatNode.end_parallel_block does not bracket the parallel block with put_ensure_gil / put_release_ensured_gil when %s: each `with gil` '
+                              'section inside the region then creates and destroys its own thread state, and the exception it raised is destroyed with it before '
+                              'fetch_parallel_exception can save it (the error exit re-raises nothing: SystemError / lost exception)'
+                              % ('the body can raise (error_label_used)' if err else 'the loop holds the GIL'))
+                    break
+    # ---- (e) return inside a region
+    marks, crit, rvfn, rgfn = return_table(ctx)
+    r.inst('node:return:marked', sample='visit_ReturnStatNode: in_parallel for stack depth 0/1 = %s / %s' % (sorted(marks[0], key=repr), sorted(marks[1], key=repr)))
+    if marks[1] != {True}:
+        r.violate('node:return:marked', trel, rvfn.lineno, 'MarkParallelAssignments.visit_ReturnStatNode leaves in_parallel = %s for a return statement inside a parallel region: the return '
+                  'value is then assigned without the omp critical section - two threads that return at the same time both release the previous value (double free) '
+                  'or tear the value' % sorted(marks[1], key=repr))
+    for (in_par, refc, has_value), oks in sorted(crit.items()):
+        if not in_par:
+            continue
+        key = 'node:return:critical:refcounted=%s:value=%s' % (refc, has_value)
+        r.inst(key, sample='return in a region (refcounted=%s, value=%s): return value stored inside critical section on every path: %s' % (refc, has_value, oks))
+        for stored, inside in oks:
+            if stored and not inside:
+                r.violate(key, rel, rgfn.lineno, 'ReturnStatNode.generate_execution_code stores the return value of a `return` inside a parallel region outside an `omp critical` block: '
+                          'concurrent returns race on the shared return slot (an object value is released twice)')
+                break
+    # positive control: the range table of a swapped unpacking
+    pc = ast.parse("class P:\n  def analyse_declarations(self, env):\n    if len(self.args) == 1:\n      self.stop, = self.args\n    elif len(self.args) == 2:\n"
+                   "      self.stop, self.start = self.args\n    else:\n      self.start, self.stop, self.step = self.args\n").body[0].body[0]
+    t = range_args_table(ctx, prn, pc)
+    r.positive_control(t[2] == {('A1', 'A0', None)} and t[1] == {(None, 'A0', None)}, 'start/stop exchanged for two arguments')
+    return r
+
+
+# ------------------------------------------------------------------------------------------------ C37-FLOW
+INPLACE_OPS = ('+', '-', '*', '&', '|', '^', '/', '//', '%', '<<', '>>', '**', '@')
+
+
+def clause_table(ctx, prn, fn=None, ops=None):
+    """generate_loop interpreted per (is_parallel, entry is the loop target?, in-place operator, Python object?) ->
+    dict(reduction={(op, cname)}, lastprivate={cname}, firstprivate={cname}) (union over the paths of the world, which must agree)."""
+    ix = ctx.index
+    if fn is None:
+        _, fn = pC37.method(ix, prn, 'generate_loop')
+
+    def build():
+        table = {}
+        for is_parallel in (True, False):
+            for which in ('target', 'var'):
+                for op in ((None,) + INPLACE_OPS if ops is None else ops):
+                    for pyobj in (False,):
+                        tentry = Sym('target-entry', {'cname': 'T', 'type': Sym('ttype', {'is_pyobject': pyobj if which == 'target' else False})})
+                        ventry = Sym('var-entry', {'cname': 'E', 'type': Sym('vtype', {'is_pyobject': pyobj})})
+                        entry = tentry if which == 'target' else ventry
+                        items = ((entry, op),)
+                        base = _label_oracle(ctx, frozenset(), KINDS, [0], prn)
+
+                        def oracle(n, st, mini, items=items, base=base):
+                            if isinstance(n, ast.Call):
+                                f = n.func
+                                if isinstance(f, ast.Attribute) and f.attr == 'items' and is_self_attr(f.value) and f.value.attr == 'privates' and not n.args:
+                                    return items
+                                if isinstance(f, ast.Name) and f.id in ('sorted', 'list', 'tuple') and len(n.args) == 1 and not n.keywords:
+                                    v = mini.ev(n.args[0], st)
+                                    return v if isinstance(v, tuple) else UNK
+                            return base(n, st, mini)
+                        attrs = dict(is_parallel=is_parallel, is_nested_prange=False, acquire_gil=False, schedule=None, chunksize=None, threading_condition=None,
+                                     num_threads=None, breaking_label_used=False, target=Sym('target', {'entry': tentry}),
+                                     parent=Sym('parent', {'privatization_insertion_point': Sym('ip')}))
+                        m = Mini(oracle, _recorder, what='ParallelRangeNode.generate_loop')
+                        rows = []
+                        for st, _, _ in _normal_paths(m.run(fn, State(attrs=attrs)), 'ParallelRangeNode.generate_loop'):
+                            red, last, first = set(), set(), set()
+                            for e in st.trace:
+                                if e[0] == 'emit' and e[2] is not None:
+                                    red |= set(re.findall(r'\breduction\s*\(\s*([^:\s()]+)\s*:\s*(\w+)\s*\)', e[2]))
+                                    last |= set(re.findall(r'\blastprivate\s*\(\s*(\w+)\s*\)', e[2]))
+                                    first |= set(re.findall(r'\bfirstprivate\s*\(\s*(\w+)\s*\)', e[2]))
+                            row = dict(reduction=frozenset(red), lastprivate=frozenset(last), firstprivate=frozenset(first))
+                            if row not in rows:
+                                rows.append(row)
+                        if len(rows) != 1:
+                            raise AnalysisError('ParallelRangeNode.generate_loop: the sharing clauses differ between paths of one world (%d variants)' % len(rows))
+                        table[(is_parallel, which, op, pyobj)] = rows[0]
+        return table
+    return ctx.memo(('sC37.clauses', id(fn), ops), build)
+
+
+def reduction_ops(ctx, prn):
+    """In-place operators that generate_loop turns into a reduction clause for an ordinary C variable."""
+    t = clause_table(ctx, prn)
+    return sorted({op for (par, which, op, pyobj), row in t.items() if which == 'var' and not pyobj and op is not None and any(c == 'E' for _, c in row['reduction'])})
+
+
+def _bind_call(call, callee):
+    """parameter name -> argument node for a call of a method (self excluded); None when the call shape is not plain."""
+    a = callee.args
+    if a.vararg or a.kwarg or any(isinstance(x, ast.Starred) for x in call.args) or any(k.arg is None for k in call.keywords):
+        return None
+    params = [x.arg for x in a.posonlyargs + a.args][1:]
+    if len(call.args) > len(params):
+        return None
+    bound = dict(zip(params, call.args))
+    for k in call.keywords:
+        bound[k.arg] = k.value
+    return bound
+
+
+def _pattern_paths(t, path=()):
+    if isinstance(t, ast.Name):
+        yield t.id, path
+    elif isinstance(t, (ast.Tuple, ast.List)):
+        for i, e in enumerate(t.elts):
+            yield from _pattern_paths(e, path + (i,))
+
+
+FLOW_HOPS = ('flow:privates-store', 'flow:sharing-args', 'flow:propagate-recursion', 'flow:assignments-slot', 'flow:inplace-op', 'flow:sharing-called',
+             'flow:target-registered')
+
+
+def _through_locals(fn, e, stop, depth=0):
+    """Follow a name through single plain / pairwise tuple assignments of fn (`pos, op = where, operator`) until it is one of the names in `stop`."""
+    while isinstance(e, ast.Name) and e.id not in stop and depth < 4:
+        defs = []
+        for n in walk_no_nested(fn):
+            if isinstance(n, ast.Assign) and len(n.targets) == 1:
+                t, v = n.targets[0], n.value
+                if isinstance(t, ast.Name) and t.id == e.id:
+                    defs.append(v)
+                elif isinstance(t, (ast.Tuple, ast.List)) and isinstance(v, (ast.Tuple, ast.List)) and len(t.elts) == len(v.elts):
+                    for a, b in zip(t.elts, v.elts):
+                        if isinstance(a, ast.Name) and a.id == e.id:
+                            defs.append(b)
+                elif any(isinstance(x, ast.Name) and x.id == e.id for x in ast.walk(t)):
+                    defs.append(None)
+        if len(defs) != 1 or defs[0] is None:
+            return e
+        e = defs[0]
+        depth += 1
+    return e
+
+
+def flow_chain(ctx):
+    """The reduction operator's way from the in-place assignment to the sharing clause, hop by hop -> [(key, ok, sample, message, rel, line)]."""
+    ix = ctx.index
+    psn = ix.cls('Nodes', 'ParallelStatNode')
+    prn = ix.cls('Nodes', 'ParallelRangeNode')
+    mpa = ix.cls('TypeInference', 'MarkParallelAssignments')
+    nrel, trel = psn.module.rel, mpa.module.rel
+    out = []
+    # reader side: analyse_sharing_attributes -> propagate_var_privatization
+    _, afn = pC37.method(ix, psn, 'analyse_sharing_attributes')
+    _, pfn = pC37.method(ix, psn, 'propagate_var_privatization')
+    loops = [n for n in walk_no_nested(afn) if isinstance(n, ast.For) and isinstance(n.iter, ast.Call) and isinstance(n.iter.func, ast.Attribute)
+             and n.iter.func.attr == 'items' and is_self_attr(n.iter.func.value) and n.iter.func.value.attr == 'assignments']
+    if len(loops) != 1:
+        raise AnalysisError('ParallelStatNode.analyse_sharing_attributes: expected one loop over self.assignments.items(), found %d' % len(loops))
+    paths = dict(_pattern_paths(loops[0].target))
+    calls = [c for c in ast.walk(loops[0]) if pC37.self_call(c, ('propagate_var_privatization',))]
+    if not calls:
+        raise AnalysisError('ParallelStatNode.analyse_sharing_attributes no longer calls propagate_var_privatization inside the loop')
+    pparams = [x.arg for x in pfn.args.args][1:]
+    stores = [n for n in walk_no_nested(pfn) if isinstance(n, ast.Assign) and len(n.targets) == 1 and isinstance(n.targets[0], ast.Subscript)
+              and is_self_attr(n.targets[0].value) and n.targets[0].value.attr == 'privates']
+    if not stores:
+        raise AnalysisError('ParallelStatNode.propagate_var_privatization no longer stores into self.privates')
+    bad = [s for s in stores if not (isinstance(s.value, ast.Name) and s.value.id in pparams and isinstance(s.targets[0].slice, ast.Name) and s.targets[0].slice.id in pparams)]
+    out.append(('flow:privates-store', not bad, 'self.privates[%s] = %s' % (ast.unparse(stores[0].targets[0].slice), ast.unparse(stores[0].value)),
+                'ParallelStatNode.propagate_var_privatization stores `%s` into self.privates instead of the operator it was called with: the in-place operator recorded for a variable '
+                'is lost, generate_loop declares the variable lastprivate instead of reduction(op:var) and a sum/product computed in a prange is wrong for more than one thread'
+                % ast.unparse((bad or stores)[0]), nrel, (bad or stores)[0].lineno))
+    if bad:
+        return out, None
+    p_key, p_op = stores[0].targets[0].slice.id, stores[0].value.id
+    slot = None
+    for c in calls:
+        b = _bind_call(c, pfn)
+        if b is None:
+            raise AnalysisError('analyse_sharing_attributes: call of propagate_var_privatization has no plain argument list')
+        ka, oa = _through_locals(afn, b.get(p_key), paths), _through_locals(afn, b.get(p_op), paths)
+        kpath = paths.get(ka.id) if isinstance(ka, ast.Name) else None
+        opath = paths.get(oa.id) if isinstance(oa, ast.Name) else None
+        ok = kpath == (0,) and opath is not None and len(opath) == 2 and opath[0] == 1
+        out.append(('flow:sharing-args', ok, 'propagate_var_privatization(%s=%s, %s=%s) over `for %s in self.assignments.items()`' % (
+            p_key, ast.unparse(ka) if ka is not None else None, p_op, ast.unparse(oa) if oa is not None else None, ast.unparse(loops[0].target)),
+                    'ParallelStatNode.analyse_sharing_attributes passes `%s` as `%s` and `%s` as `%s` of propagate_var_privatization; the first must be the dictionary key (the entry) and '
+                    'the second a member of the recorded (position, operator) value: otherwise the privates table is keyed or filled with the wrong object and no reduction is recognised'
+                    % (ast.unparse(ka) if ka is not None else None, p_key, ast.unparse(oa) if oa is not None else None, p_op), nrel, c.lineno))
+        if ok:
+            slot = opath[1] if slot in (None, opath[1]) else -1
+    if slot is None or slot < 0:
+        return out, None
+    # recursion towards the enclosing pranges keeps the operator
+    for c in [c for c in walk_no_nested(pfn) if isinstance(c, ast.Call) and isinstance(c.func, ast.Attribute) and c.func.attr == 'propagate_var_privatization']:
+        b = _bind_call(c, pfn)
+        ok = b is not None and isinstance(b.get(p_op), ast.Name) and b[p_op].id == p_op and isinstance(b.get(p_key), ast.Name) and b[p_key].id == p_key
+        out.append(('flow:propagate-recursion', ok, 'recursive call %s' % node_src(c, 70),
+                    'ParallelStatNode.propagate_var_privatization hands the variable on to the enclosing parallel construct with `%s` instead of its own (entry, operator): in nested '
+                    'pranges the sharing clauses sit on the outer `#pragma omp parallel for`, which then declares the reduction variable lastprivate - wrong sums' % node_src(c, 70),
+                    nrel, c.lineno))
+    # writer side: mark_assignment stores (pos, op) ; visit_InPlaceAssignmentNode passes node.operator
+    _, mfn = pC37.method(ix, mpa, 'mark_assignment')
+    mparams = [x.arg for x in mfn.args.args][1:]
+    mstores = [n for n in walk_no_nested(mfn) if isinstance(n, ast.Assign) and len(n.targets) == 1 and isinstance(n.targets[0], ast.Subscript)
+               and isinstance(n.targets[0].value, ast.Attribute) and n.targets[0].value.attr == 'assignments']
+    if not mstores:
+        raise AnalysisError('MarkParallelAssignments.mark_assignment no longer stores into <parallel node>.assignments')
+    m_op = None
+    for s in mstores:
+        v = s.value
+        cand = [i for i, e in enumerate(v.elts) if isinstance(e, ast.Name) and e.id in mparams] if isinstance(v, ast.Tuple) else []
+        ok = len(cand) == 1
+        out.append(('flow:assignments-slot', ok, 'mark_assignment: assignments[...] = %s (operator slot %s)' % (node_src(v, 50), cand),
+                    'MarkParallelAssignments.mark_assignment records `%s` for an assigned variable: no member of the recorded value is the in-place operator parameter of '
+                    'mark_assignment, so no assignment is ever recognised as a reduction (sum += x in a prange loses updates)' % node_src(v, 50), trel, s.lineno))
+        if ok:
+            if cand[0] != slot:
+                out.append(('flow:sharing-args', False, '',
+                            'MarkParallelAssignments.mark_assignment stores the in-place operator at position %d of the value recorded in <node>.assignments, but '
+                            'ParallelStatNode.analyse_sharing_attributes passes position %d of that value as `%s` (the operator) to propagate_var_privatization: the '
+                            '"operator" tested by generate_loop is the source position, no reduction clause is emitted and sums computed in a prange are wrong'
+                            % (cand[0], slot, p_op), nrel, calls[0].lineno))
+                return out, slot
+            m_op = v.elts[slot].id
+    if m_op is None:
+        return out, slot
+    hits = 0
+    for name, fn in mpa.methods.items():
+        if 'InPlace' not in name:
+            continue
+        nodep = fn.args.args[1].arg if len(fn.args.args) > 1 else None
+        for c in walk_no_nested(fn):
+            if pC37.self_call(c, ('mark_assignment',)):
+                hits += 1
+                b = _bind_call(c, mfn)
+                a = b.get(m_op) if b else None
+                ok = isinstance(a, ast.Attribute) and a.attr == 'operator' and isinstance(a.value, ast.Name) and a.value.id == nodep
+                out.append(('flow:inplace-op', ok, '%s: mark_assignment(..., %s=%s)' % (name, m_op, ast.unparse(a) if a is not None else '<default>'),
+                            'MarkParallelAssignments.%s calls mark_assignment with %s=%s instead of the operator of the in-place assignment: `s += x` in a prange is recorded as a '
+                            'plain assignment, s becomes lastprivate instead of reduction(+:s) and the result is wrong for more than one thread'
+                            % (name, m_op, ast.unparse(a) if a is not None else 'its default'), trel, c.lineno))
+    if not hits:
+        raise AnalysisError('MarkParallelAssignments has no visit_InPlaceAssignmentNode calling mark_assignment')
+    # the loop target is registered as assigned (without operator) before the sharing analysis runs
+    _, efn = pC37.method(ix, prn, 'analyse_expressions')
+    sup = [c for c in walk_no_nested(efn) if isinstance(c, ast.Call) and isinstance(c.func, ast.Attribute) and c.func.attr == 'analyse_expressions'
+           and isinstance(c.func.value, ast.Call) and isinstance(c.func.value.func, ast.Name) and c.func.value.func.id == 'super']
+    if len(sup) != 1:
+        raise AnalysisError('ParallelRangeNode.analyse_expressions: expected one super().analyse_expressions() call')
+    _, base_fn = pC37.method(ix, psn, 'analyse_expressions')
+    if not any(pC37.self_call(c, ('analyse_sharing_attributes',)) for c in walk_no_nested(base_fn)):
+        out.append(('flow:sharing-called', False, '', 'ParallelStatNode.analyse_expressions no longer calls analyse_sharing_attributes: no variable is privatised', nrel, base_fn.lineno))
+    else:
+        out.append(('flow:sharing-called', True, 'ParallelStatNode.analyse_expressions -> analyse_sharing_attributes', '', nrel, base_fn.lineno))
+    regs = []
+    for n in walk_no_nested(efn):
+        if isinstance(n, ast.Assign) and len(n.targets) == 1 and isinstance(n.targets[0], ast.Subscript) and is_self_attr(n.targets[0].value) \
+                and n.targets[0].value.attr == 'assignments' and 'target' in ast.unparse(n.targets[0].slice):
+            regs.append(n)
+
+    def top_index(node):
+        for i, s in enumerate(efn.body):
+            if any(x is node for x in ast.walk(s)):
+                return (i, node.lineno)
+        return (10 ** 6, 0)
+    good = [n for n in regs if isinstance(n.value, ast.Tuple) and len(n.value.elts) > slot and isinstance(n.value.elts[slot], ast.Constant) and n.value.elts[slot].value is None
+            and top_index(n) < top_index(sup[0])
+            and all('target' in ast.unparse(t) for t, _ in path_conditions(efn, n))]
+    out.append(('flow:target-registered', bool(good), 'self.assignments[<target entry>] = %s before super().analyse_expressions()' % (node_src(regs[0].value, 40) if regs else None),
+                'ParallelRangeNode.analyse_expressions does not register the loop variable in self.assignments (with no operator) before the sharing attributes are analysed: '
+                'the index variable gets no lastprivate clause, is shared between the threads and does not end at the last index', nrel, (regs[0] if regs else efn).lineno))
+    return out, slot
+
+
+def rule_flow(ctx):
+    ix = ctx.index
+    r = Rule('C37-FLOW', 'privatisation: the in-place operator of an assignment inside a prange reaches the sharing clause unchanged (visit_InPlaceAssignmentNode -> mark_assignment '
+             '-> assignments -> analyse_sharing_attributes -> propagate_var_privatization -> privates -> generate_loop), the loop variable is registered as assigned, and '
+             'generate_loop emits lastprivate(var) for assigned variables / the loop variable and reduction(op:var) for the OpenMP-reducible operators', floor=22)
+    prn = ix.cls('Nodes', 'ParallelRangeNode')
+    rel = prn.module.rel
+    _, gfn = pC37.method(ix, prn, 'generate_loop')
+    rows, slot = flow_chain(ctx)
+    seen = set()
+    for key, ok, sample, msg, frel, line in rows:
+        if key not in seen or ok:
+            r.inst(key, sample='%s: %s' % (key, sample))
+        seen.add(key)
+        if not ok:
+            r.violate(key, frel, line, msg)
+    for key in FLOW_HOPS:
+        if key not in seen:
+            r.inst(key, sample='%s: not evaluated, an earlier hop of the chain is broken' % key, nontrivial=False)
+    t = clause_table(ctx, prn)
+    for par in (True, False):
+        pn = 'parallel-for' if par else 'for-in-team'
+        row = t[(par, 'target', None, False)]
+        r.inst('flow:clause:lastprivate:target:' + pn, sample='loop variable: %s' % dict(row))
+        if 'T' not in row['lastprivate']:
+            r.violate('flow:clause:lastprivate:target', rel, gfn.lineno,
+                      'ParallelRangeNode.generate_loop emits no lastprivate(<loop variable>) clause (clauses for it: %s): with OpenMP the index variable keeps its value from before '
+                      'the loop instead of ending at the last index' % {k: sorted(v) for k, v in row.items() if v})
+        row = t[(par, 'var', None, False)]
+        r.inst('flow:clause:lastprivate:var:' + pn, sample='assigned variable: %s' % dict(row))
+        if 'E' not in row['lastprivate']:
+            r.violate('flow:clause:lastprivate:var', rel, gfn.lineno,
+                      'ParallelRangeNode.generate_loop emits no lastprivate(<var>) clause for a C variable assigned in the loop body (clauses: %s): the variable is shared between '
+                      'the threads (data race) or does not carry the value of the last iteration out of the loop' % {k: sorted(v) for k, v in row.items() if v})
+        row = t[(par, 'target', '+', False)]
+        r.inst('flow:clause:target-no-reduction:' + pn, sample='loop variable with in-place operator: %s' % dict(row))
+        if any(c == 'T' for _, c in row['reduction']) or 'T' not in row['lastprivate']:
+            r.violate('flow:clause:target-no-reduction', rel, gfn.lineno, 'ParallelRangeNode.generate_loop declares the loop variable itself a reduction: the index formula assigns it '
+                      'in every iteration, its final value is the combination of per-thread garbage instead of the last index')
+        for op in sorted(pC37.SEQUENTIAL_SAFE):
+            row = t[(par, 'var', op, False)]
+            key = 'flow:clause:reduction:%s' % op
+            r.inst(key + ':' + pn, sample='`var %s= ...`: %s' % (op, dict(row)))
+            if (op, 'E') not in row['reduction']:
+                r.violate(key, rel, gfn.lineno,
+                          'ParallelRangeNode.generate_loop does not emit reduction(%s:<var>) for a C variable updated with `%s=` in the loop body (clauses: %s): the per-thread partial '
+                          'results are not combined, the result of the loop differs from the sequential loop for more than one thread' % (
+                              op, op, {k: sorted(v) for k, v in row.items() if v}))
+    # positive control: a generator that treats only the loop variable as reduction
+    pc = ast.parse("class P:\n  def generate_loop(self, code, fmt_dict):\n    for entry, op in sorted(self.privates.items()):\n"
+                   "      if op and op in '+*' and entry == self.target.entry:\n        code.put(' reduction(%s:%s)' % (op, entry.cname))\n"
+                   "      else:\n        code.put(' lastprivate(%s)' % entry.cname)\n").body[0].body[0]
+    t2 = clause_table(ctx, prn, pc, ops=(None, '+'))
+    r.positive_control(('+', 'E') not in t2[(True, 'var', '+', False)]['reduction'] and ('+', 'T') in t2[(True, 'target', '+', False)]['reduction'], 'reduction clause only for the loop variable')
     return r
